@@ -9,3 +9,5 @@ git -C /repo checkout -- . ; git -C /repo clean -fdq
 grep -E "VIOLATION|KNOWN-FINDING|PASS|BROKEN" /tmp/try_seed.log | cut -c1-400 | head -8
 echo "rc=$rc"
 find /verif/replays -type f -newer "$PATCH" -name '*' | head -0
+# the evidence files describe runs on the unchanged tree only: put the committed ones back
+git -C /verif checkout -- evidence 2>/dev/null
